@@ -334,7 +334,14 @@ def facade (st : DState) (evs : List Event) : DState × List String :=
       else (st, acc.2 ++ [s!"c{c}:end"])
     | .nodes c l => (st, acc.2 ++ [s!"c{c}:nodes:{showNodes l}"])
     | .putResult c (.ok t) => (st, acc.2 ++ [s!"c{c}:ok:{bytesToHex t.bytes}"])
-    | .putResult c (.error e) => (st, acc.2 ++ [s!"c{c}:{showPutErr e}"])
+    | .putResult c (.error e) =>
+      -- `unreachable!("should not receive a concurrency error from …")` in the facades of the puts that
+      -- are not mutable items: the caller panics
+      let concurrency := match e with
+        | .casFailed | .notMostRecent | .conflictRisk => true
+        | _ => false
+      if concurrency && st.immCallers.contains (c + 1000000) then (st, acc.2 ++ [s!"c{c}:panic"])
+      else (st, acc.2 ++ [s!"c{c}:{showPutErr e}"])
     | .info c i => (st, acc.2 ++ [s!"c{c}:info:id={bytesToHex i.id.bytes} pub={match i.publicAddress with | none => "none" | some a => showAddr a} fw={if i.firewalled then 1 else 0} mode={if i.serverMode then "s" else "c"} rt={i.rtSize} srt={i.srtSize}"])) (st, [])
 
 def sortStrings (l : List String) : List String := (l.toArray.qsort (· < ·)).toList
@@ -470,7 +477,11 @@ def step3 (st : DState) (toks : List String) : DState × String :=
      | some c, some _ =>
        (match parseApi c call rest with
         | some (m, isImm) =>
-          ({ st with apiQ := st.apiQ ++ [m], immCallers := if isImm then c :: st.immCallers else st.immCallers }, "ok")
+          -- callers of the facades that treat a concurrency error as unreachable (put_immutable,
+          -- announce_peer, announce_signed_peer) are remembered as c + 1000000
+          let plain := call == "put_imm" || call == "announce" || call == "sannounce"
+          ({ st with apiQ := st.apiQ ++ [m],
+                     immCallers := (if isImm then [c] else []) ++ (if plain then [c + 1000000] else []) ++ st.immCallers }, "ok")
         | none => (st, "bad-op"))
      | _, _ => (st, "bad-op"))
   | "step" :: rest =>
